@@ -407,6 +407,11 @@ func (app *App) stateManager() appState {
 		}
 		return stateManager
 	}
+	if clusterState[master] == nil || clusterStateDcs[master] == nil {
+		// e.g. the host was removed from ha_nodes while it still is the recorded master
+		app.logger.Error().Msgf("recorded master %s is not a registered host, can't manage the cluster", master)
+		return stateManager
+	}
 
 	// activeNodes are master + alive running replicas
 	activeNodes, err := app.GetActiveNodes()
